@@ -50,6 +50,14 @@ class _End(Exception):
     pass
 
 
+class _Resume(Exception):
+    def __init__(self, kind):
+        self.kind = kind
+
+
+ERR_CODES = {OVERFLOW: 10, DIV0: 14, SUBSCRIPT: 11, ILLEGAL: 9, DEVICE: 3}
+
+
 class RefBudget(Exception):
     pass
 
@@ -268,6 +276,11 @@ class Interp:
         self.cur_line = None
         self.err_line = None
         self.lines = []          # scripted INPUT response lines
+        self.on_error = None     # None | 'next' | label
+        self.in_handler = False
+        self.err_code = 0
+        self.pending_error = None
+        self.main_labels = {}
 
     # -- storage -----------------------------------------------------
     def _mk_storage(self, name, astype):
@@ -416,6 +429,8 @@ class Interp:
                 if d == c:
                     lo, hi = arr.bounds[c - 1]
                     return '&', (lo if name == 'LBOUND' else hi)
+        if name == 'ERR':
+            return '%', self.err_code
         if name == 'INKEY$':
             return '$', (self.inkeys.pop(0) if self.inkeys else '')
         if name == 'PEEK':
@@ -596,16 +611,45 @@ class Interp:
             c.v = convert(v, t, c.t)
 
     def stmt(self, s):
-        self.tick()
         ln = line_of(self.prog, s)
-        if ln is not None:
-            self.cur_line = ln
-        try:
-            self._stmt(s)
-        except QBError as e:
-            if e.line is None:
-                e.line = ln if ln is not None else self.cur_line
-            raise
+        while True:
+            self.tick()
+            if ln is not None:
+                self.cur_line = ln
+            try:
+                self._stmt(s)
+                return
+            except QBError as e:
+                if e.line is None:
+                    e.line = ln if ln is not None else self.cur_line
+                if self.on_error is None or self.in_handler or \
+                        len(self.frames) != 1 or s[0] in (
+                            'if', 'for', 'while', 'do', 'select'):
+                    # not armed / error inside the handler / not a module
+                    # level statement / a block (its inner statement has
+                    # already had its chance): propagate
+                    raise
+                self.err_code = ERR_CODES[e.cls]
+                if self.on_error == 'next':
+                    return
+                self.in_handler = True
+                self.pending_error = e
+                kind = self.run_handler()
+                self.in_handler = False
+                if kind == 'next':
+                    return
+                # 'same': execute the statement again
+
+    def run_handler(self):
+        main = self.prog.main
+        i = self.main_labels[self.on_error] + 1
+        while i < len(main):
+            try:
+                self.stmt(main[i])
+            except _Resume as r:
+                return r.kind
+            i += 1
+        raise _End()
 
     def _stmt(self, s):
         k = s[0]
@@ -675,6 +719,16 @@ class Interp:
                 self.trace.append(('pcspkr', 'beep'))
         elif k == 'input':
             self.do_input(s)
+        elif k == 'onerror':
+            if s[1] == 0:
+                if self.in_handler:
+                    # ON ERROR GOTO 0 inside a handler re-raises the error
+                    raise QBError(self.pending_error.cls)
+                self.on_error = None
+            else:
+                self.on_error = s[1]
+        elif k == 'resume':
+            raise _Resume(s[1])
         elif k in ('label', 'lineno', 'raw', 'data'):
             pass
         elif k == 'line':
@@ -859,6 +913,7 @@ class Interp:
         for i, s in enumerate(main):
             if s[0] in ('label', 'lineno'):
                 labels[s[1]] = i
+        self.main_labels = labels
         self.frames = [{'name': '_main', 'vars': {}, 'consts': {},
                         'static': False}]
         gosubs = []
